@@ -216,20 +216,26 @@ theorem callFunction_enters (p : Prog) (re : Reenter) (src : Nat)
   show (_, ({ s with stack := s.stack.pop.1, frames := _ } : VmState)) = _
   rw [hpop]
 
-/-- `Return` as a function of the state -/
+/-- the height `clear_until i` leaves: it only truncates -/
+theorem clearUntil_height (i c : Nat) : (if i < c then i else c) = min i c := by
+  rw [Nat.min_def]; split <;> split <;> omega
+
+/-- `Return` as a function of the state (`clear_until` only truncates: the stack is cut at
+    `min stackOffset height`) -/
 theorem go_ret (s : VmState) :
     Upv.Instr.ret.go s =
       match s.frames.getLast? with
       | none => (.error .badReturn, s)
       | some fr =>
         let s1 := Upv.closeState fr.stackOffset { s with frames := s.frames.dropLast }
-        let s2 : VmState := { s1 with stack := { s1.stack with count := fr.stackOffset } }
+        let c := min fr.stackOffset s.stack.count
+        let s2 : VmState := { s1 with stack := { s1.stack with count := c } }
         match s.frames.dropLast.getLast? with
         | none => (.error .badReturn, s2)
         | some caller =>
-          if fr.stackOffset + 1 < s.stack.data.length then
+          if c + 1 < s.stack.data.length then
             (.ok { ip := caller.dst },
-              { s2 with stack := { count := fr.stackOffset + 1, data := s.stack.data.set fr.stackOffset s.stack.last } })
+              { s2 with stack := { count := c + 1, data := s.stack.data.set c s.stack.last } })
           else (.error .stackoverflow, s2) := by
   unfold Upv.Instr.ret
   simp only [go_bind, go_get]
@@ -237,6 +243,8 @@ theorem go_ret (s : VmState) :
   | none => rfl
   | some fr =>
     simp only [go_bind, go_set, Upv.go_closeUpvalues, go_get, VStack.clearUntil]
+    have hst0 : (Upv.closeState fr.stackOffset { s with frames := s.frames.dropLast }).stack = s.stack := rfl
+    simp only [hst0, clearUntil_height]
     cases hc : s.frames.dropLast.getLast? with
     | none =>
       have : (Upv.closeState fr.stackOffset { s with frames := s.frames.dropLast }).frames.getLast? = none := hc
@@ -245,7 +253,7 @@ theorem go_ret (s : VmState) :
       have : (Upv.closeState fr.stackOffset { s with frames := s.frames.dropLast }).frames.getLast? = some caller := hc
       have hst : (Upv.closeState fr.stackOffset { s with frames := s.frames.dropLast }).stack = s.stack := rfl
       simp only [go_bind, go_get, this, go_push, go_pure, hst]
-      by_cases hroom : fr.stackOffset + 1 < s.stack.data.length
+      by_cases hroom : min fr.stackOffset s.stack.count + 1 < s.stack.data.length
       · simp only [hroom, if_true]
       · simp only [hroom, if_false]
 
